@@ -3,7 +3,8 @@ Copies a confirmed seeded change to /verif/seeded/<Cxx>-<name>/ and records what
 import sys, os, json, shutil
 src, prop, caught = sys.argv[1].rstrip('/'), sys.argv[2], sys.argv[3]
 note = sys.argv[4] if len(sys.argv) > 4 else ''
-name = '%s-%s' % (prop, os.path.basename(src))
+base = os.path.basename(src)
+name = base if base.startswith(prop + "-") else "%s-%s" % (prop, base)
 dst = os.path.join('/verif/seeded', name)
 os.makedirs(dst, exist_ok=True)
 for f in ('patch.diff', 'demo.py'):
